@@ -77,6 +77,7 @@ class CFG:
         self._loop_stack: list[tuple[int, int]] = []  # (continue target, break-join placeholder list id)
         self._break_lists: list[list[int]] = []
         self._handler_stack: list[list[int]] = []
+        self.exc_edges: set[tuple[int, int]] = set()   # edges taken only when a statement raises into an enclosing handler
         ends = self._seq(func_node.body, [self.entry])
         for e in ends:
             self._edge(e, self.exit)
@@ -100,6 +101,8 @@ class CFG:
     def _exc_edges(self, nid: int):
         if self._handler_stack:
             for h in self._handler_stack[-1]:
+                if h not in self.succ[nid]:
+                    self.exc_edges.add((nid, h))
                 self._edge(nid, h)
 
     def _seq(self, stmts: list[ast.stmt], preds: list[int]) -> list[int]:
@@ -266,7 +269,8 @@ class CFG:
     def has_node(self, a: ast.AST) -> bool:
         return id(a) in self._stmt_node or id(a) in self._expr_owner
 
-    def reachable_from(self, start: int, avoiding: set[int] | frozenset = frozenset()) -> set[int]:
+    def reachable_from(self, start: int, avoiding: set[int] | frozenset = frozenset(), normal_only: bool = False) -> set[int]:
+        """normal_only: do not follow the edges a raising statement takes into a handler."""
         seen = set()
         todo = [start]
         while todo:
@@ -274,7 +278,7 @@ class CFG:
             if x in seen or x in avoiding:
                 continue
             seen.add(x)
-            todo.extend(self.succ[x])
+            todo.extend(y for y in self.succ[x] if not (normal_only and (x, y) in self.exc_edges))
         return seen
 
     def reaches(self, a: int, b: int, avoiding=frozenset()) -> bool:
